@@ -6,6 +6,10 @@ State-passing transcription of `check_ignore_directive_usage`, `ban_unknown_rule
 
 * `HashMap` iteration orders are explicit: the `codes` of a directive and the list of line
   directives are given *in iteration order* (the correspondence harness observes the real order).
+* The `CodeStatus.used` flags, which the code keeps inside each directive's map, are kept here as a
+  separate set of marks `(directive key, code)`; `check_used` adds a mark exactly when the directive
+  has the code, and `status.used` is membership.  (Same observable behaviour; the directives
+  themselves are then immutable, which is what the accounting proofs exploit.)
 * `sort_by` is a stable sort: `List.mergeSort`.
 * Every quirk of the code is kept (e.g. the file directive's `ban-unknown-rule-code` entry is
   marked used only when some unknown code was found; `diagnostic_line > 0`).
@@ -34,54 +38,59 @@ structure Diag where
 structure Dir where
   start : Nat
   line : Nat
-  /-- `HashMap<String, CodeStatus>` in iteration order; keys are distinct -/
-  codes : List (String × Bool)
+  /-- keys of `HashMap<String, CodeStatus>` in iteration order; distinct -/
+  codes : List String
   deriving DecidableEq, Repr
 
-def Dir.hasCode (d : Dir) (c : String) : Bool := d.codes.any (fun kv => kv.1 == c)
+/-- `IgnoreDirective::has_code` -/
+def Dir.hasCode (d : Dir) (c : String) : Bool := d.codes.contains c
 
-def markUsed (c : String) : List (String × Bool) → List (String × Bool)
-  | [] => []
-  | (k, u) :: r => if k == c then (k, true) :: markUsed c r else (k, u) :: markUsed c r
-
-/-- `IgnoreDirective::check_used` -/
-def Dir.checkUsed (d : Dir) (c : String) : Dir × Bool :=
-  if d.hasCode c then ({ d with codes := markUsed c d.codes }, true) else (d, false)
+/-- which directive: the file-level one, or the line-level one stored under line key `k` -/
+abbrev DirKey := Option Nat
 
 structure St where
   file : Option Dir
   /-- `HashMap<usize, LineIgnoreDirective>` in iteration order; keys distinct -/
   lines : List (Nat × Dir)
+  /-- the `CodeStatus.used` flags that are set -/
+  marks : List (DirKey × String) := []
   deriving DecidableEq, Repr
 
 def lookupLine (k : Nat) : List (Nat × Dir) → Option Dir
   | [] => none
   | (k', d) :: r => if k' = k then some d else lookupLine k r
 
-def updateLine (k : Nat) (d : Dir) : List (Nat × Dir) → List (Nat × Dir)
-  | [] => []
-  | (k', d') :: r => if k' = k then (k', d) :: r else (k', d') :: updateLine k d r
+/-- does the file-level directive name code `c` -/
+def fileNames (st : St) (c : String) : Bool :=
+  match st.file with
+  | some f => f.hasCode c
+  | none => false
 
-/-- one iteration of the loop in `check_ignore_directive_usage`; `true` = pushed to `filtered` -/
-def stepUsage (st : St) (d : Diag) : St × Bool :=
-  let fileHit : Option Dir :=
-    match st.file with
-    | some f => if f.hasCode d.code then some (f.checkUsed d.code).1 else none
-    | none => none
-  match fileHit with
-  | some f' => ({ st with file := some f' }, false)
-  | none =>
-    match d.pos with
-    | none => (st, true)                       -- `let Some(range) = .. else { filtered.push(..); continue }`
-    | some (_, line) =>
-      if line > 0 then
-        match lookupLine (line - 1) st.lines with
-        | some l =>
-          if l.hasCode d.code then
-            ({ st with lines := updateLine (line - 1) (l.checkUsed d.code).1 st.lines }, false)
-          else (st, true)
-        | none => (st, true)
+/-- does the line directive stored under key `k` name code `c` -/
+def lineNamesAt (st : St) (k : Nat) (c : String) : Bool :=
+  match lookupLine k st.lines with
+  | some l => l.hasCode c
+  | none => false
+
+def St.mark (st : St) (k : DirKey) (c : String) : St := { st with marks := (k, c) :: st.marks }
+def St.used (st : St) (k : DirKey) (c : String) : Bool := st.marks.contains (k, c)
+
+/-- `if let Some(f) = self.file_ignore_directive.as_mut() { f.check_used(c) }` -/
+def markFile (st : St) (c : String) : St := if fileNames st c then st.mark none c else st
+
+/-- the line-directive half of one loop iteration of `check_ignore_directive_usage`; `true` = pushed to `filtered` -/
+def stepLine (st : St) (d : Diag) : St × Bool :=
+  match d.pos with
+  | none => (st, true)                       -- `let Some(range) = .. else { filtered.push(..); continue }`
+  | some (_, line) =>
+    if line > 0 then
+      if lineNamesAt st (line - 1) d.code then (st.mark (some (line - 1)) d.code, false)   -- `l.check_used(..)`
       else (st, true)
+    else (st, true)
+
+/-- one iteration of the loop in `check_ignore_directive_usage` -/
+def stepUsage (st : St) (d : Diag) : St × Bool :=
+  if fileNames st d.code then (st.mark none d.code, false) else stepLine st d
 
 /-- `check_ignore_directive_usage` -/
 def checkUsage (st : St) : List Diag → St × List Diag
@@ -91,44 +100,32 @@ def checkUsage (st : St) : List Diag → St × List Diag
     let r' := checkUsage r.1 ds
     (r'.1, if r.2 then d :: r'.2 else r'.2)
 
-def kvLe (a b : String × Bool) : Bool := decide (a.1 ≤ b.1)
+def strLe (a b : String) : Bool := decide (a ≤ b)
 
 /-- the diagnostics one directive contributes to an accounting rule: the selected codes, *sorted*
 (`sort()` / `sort_by_key` on the collected `HashMap` entries) -/
-def dirDiags (code : String) (mk : String → Payload) (d : Dir) (p : String × Bool → Bool) : List Diag :=
-  ((d.codes.filter p).mergeSort kvLe).map fun kv => { code := code, pos := some (d.start, d.line), payload := mk kv.1 }
+def dirDiags (code : String) (mk : String → Payload) (p : String → Bool) (d : Dir) : List Diag :=
+  ((d.codes.filter p).mergeSort strLe).map fun c => { code := code, pos := some (d.start, d.line), payload := mk c }
+
+/-- file directive first, then the line directives in map iteration order; `p key code` selects -/
+def allDirDiags (code : String) (mk : String → Payload) (p : DirKey → String → Bool) (st : St) : List Diag :=
+  (match st.file with
+    | some f => dirDiags code mk (p none) f
+    | none => []) ++ st.lines.flatMap fun kd => dirDiags code mk (p (some kd.1)) kd.2
+
+def unknownP (allRules : List String) : DirKey → String → Bool := fun _ c => !allRules.contains c
+def unusedP (enabled : List String) (st : St) : DirKey → String → Bool :=
+  fun k c => !st.used k c && enabled.contains c
 
 /-- `ban_unknown_rule_code(all_rules)` -/
 def banUnknown (allRules : List String) (checkUnknown : Bool) (st : St) : St × List Diag :=
-  let p : String × Bool → Bool := fun kv => !allRules.contains kv.1
-  let fileD := match st.file with
-    | some f => dirDiags cUnknown .unknown f p
-    | none => []
-  let lineD := st.lines.flatMap fun kd => dirDiags cUnknown .unknown kd.2 p
-  let diags := fileD ++ lineD
-  let st' : St :=
-    if !diags.isEmpty then
-      match st.file with
-      | some f => { st with file := some (f.checkUsed cUnknown).1 }
-      | none => st
-    else st
-  let fileSwitch := match st'.file with
-    | some f => f.hasCode cUnknown
-    | none => false
-  (st', if checkUnknown && !fileSwitch then diags else [])
+  let diags := allDirDiags cUnknown .unknown (unknownP allRules) st
+  let st' := if diags.isEmpty then st else markFile st cUnknown
+  (st', if checkUnknown && !fileNames st' cUnknown then diags else [])
 
 /-- `ban_unused_ignore(enabled_rules)` -/
 def banUnused (enabled : List String) (st : St) : List Diag :=
-  let off := match st.file with
-    | some f => f.hasCode cUnused
-    | none => false
-  if off then [] else
-  let p : String × Bool → Bool := fun kv => !kv.2 && enabled.contains kv.1
-  let fileD := match st.file with
-    | some f => dirDiags cUnused .unused f p
-    | none => []
-  let lineD := st.lines.flatMap fun kd => dirDiags cUnused .unused kd.2 p
-  fileD ++ lineD
+  if fileNames st cUnused then [] else allDirDiags cUnused .unused (unusedP enabled st) st
 
 /-- the comparator of the final `sort_by`: `Option<SourcePos>` (`None < Some`), then code -/
 def diagLe (a b : Diag) : Bool :=
@@ -156,17 +153,16 @@ def collect (cfg : Cfg) (extCodes : List String) (st : St) (raw : List Diag) : L
   let unused := if enabled.contains cUnused then banUnused enabled r2.1 else []
   (r1.2 ++ r2.2 ++ unused).mergeSort diagLe
 
-/-- the directive bookkeeping state after the three passes (used by the accounting theorems) -/
-def finalState (cfg : Cfg) (extCodes : List String) (st : St) (raw : List Diag) : St :=
-  (banUnknown (cfg.allCodes ++ extCodes) cfg.checkUnknown (checkUsage st raw).1).1
+/-- `ignore_directive.ignore_all()` of the file-level directive, if any -/
+def ignoreAll (st : St) : Bool :=
+  match st.file with
+  | some f => f.codes.isEmpty
+  | none => false
 
 /-- `lint_inner`: the rules' output `ruleDiags` and the external result are parameters. -/
 def lintInner (cfg : Cfg) (st : St) (ruleDiags : List Diag)
     (ext : Option (List Diag × List String)) : List Diag :=
-  let ignoreAll := match st.file with
-    | some f => f.codes.isEmpty
-    | none => false
-  if ignoreAll then [] else
+  if ignoreAll st then [] else
   match ext with
   | none => collect cfg [] st ruleDiags
   | some (extDiags, extCodes) => collect cfg extCodes st (ruleDiags ++ extDiags)
